@@ -149,9 +149,16 @@ def explore(ctx, tier, search=False):
         for side in (0, 1):
             pair[side]["das_plain"] = G.run_request(pair[side]["app_attr"], "/d.das", "")
         served = []
-        for ci, side in [(ci, side) for ci in range(8) for side in (0, 1)]:
+        for ci, side in [(ci, side) for ci in range(9) for side in (0, 1)]:
             spec, sx, lazy, app, app_attr, das_plain = (pair[side][k] for k in ("spec", "sx", "lazy", "app", "app_attr", "das_plain"))
             q, expected = G.gen_valid_ce(rng, spec)
+            repeated = None
+            if ci == 8:
+                # the ninth constraint names one array / grid / member twice or three times, any strides: the
+                # expectation is the composition rule of numpy's Arrayterator stated by the harness (compose_windows)
+                repeated = G.gen_repeated_ce(rng, spec)
+                if repeated is not None:
+                    q, expected = repeated
             for _ in range(20):
                 if lazy != "ranged" or not any(c in q for c in "&<>=!"):
                     break
@@ -164,6 +171,9 @@ def explore(ctx, tier, search=False):
             served.append([side, q])
             tag = judge(ctx, spec, sx, q, expected, bodies, context)
             hs = "hyperslab" if "[" in q else "plain"
+            if repeated is not None:
+                strided = len(__import__("re").findall(r"\[\d+:[2-9]:\d+\]", q.split(",")[0])) > 0
+                hs = "repeated-item first-stride>1" if strided else "repeated-item first-stride=1"
             kinds = "+".join(sorted({e[0] for e in expected})) or "empty"
             ctx.count((sx, q), bool(q), tag="%s|%s|sel=%s|%s" % (hs, kinds, "yes" if "&" in q or any(c in q for c in "<>=") else "no", tag),
                       sample={"query": q, "verdict": tag})
@@ -208,7 +218,8 @@ def run(ctx):
                 "arrays, columns) 8 valid CEs: whole variables, hyperslabs [i] [a:b] [a:k:b] on arrays, grids, structure / "
                 "nested-structure / grid members - also with fewer indices than axes and a last index beyond the extent -, "
                 "shorthand member names, whole nested structures, sequence column projections, ranges and 1..2 selections "
-                "(numbers, double-quoted strings, columns); non-trivial = non-empty query; distinct by (dataset, query)")
+                "(numbers, double-quoted strings, columns); a ninth CE naming one array / grid / member two or three times with "
+                "hyperslabs of any stride; non-trivial = non-empty query; distinct by (dataset, query)")
     ctx.assumptions = ["'%.6g' is the opaque value formatter shared by pydap's encode() and the oracle; the model prints "
                        "integers (|v| < 10^6 prints identically); strings are ASCII without quote / comma / newline, held as numpy dtype U",
                        "XDR framing of the data response is read by the harness's own decoder (C01/C05 own the codec)",
